@@ -5,6 +5,11 @@ cd "$(dirname "$0")/.."
 root=$1; reuse=$2
 extra_checks() {   # sibling checks known to be relevant for a change (the property's own check always runs)
   case "$1" in
+    */evalroot6/C01/mutant_*) echo "C01,C11";;
+    */evalroot6/C06/mutant_B) echo "C06,C08";;
+    */evalroot6/C08/mutant_B) echo "C08,C06";;
+    */evalroot6/C09/mutant_B) echo "C09,C02";;
+    */evalroot6/C10/mutant_B) echo "C10,C02";;
     */evalroot5/C02/mutant_A) echo "C02,C01";;
     */evalroot5/C09/mutant_A) echo "C09,C10,C02";;
     */evalroot5/C07/mutant_*) echo "C07,C06";;
